@@ -153,9 +153,21 @@ def k16(res, tier, seed, tag="k16"):
             us = [Fraction(float(u)) for u in (rec.us[0] if rec.us else [])]
             fv = [Fraction(float(x)) for x in v]
             if which == "lower":
-                e = "close_list (step4_lower %s %s %s %s) %s (1#1000000000000)" % (C.q(Fraction(float(d.lower_bound))), C.q(Fraction(float(d.lower_threshold))), C.ql(us), C.ql(fv), C.ql(out))
+                call = "(step4_lower %s %s %s %s)" % (C.q(Fraction(float(d.lower_bound))), C.q(Fraction(float(d.lower_threshold))), C.ql(us), C.ql(fv))
+                masked = [x for x in fv if x <= Fraction(float(d.lower_threshold))]
             else:
-                e = "close_list (step4_upper %s %s %s %s) %s (1#1000000000000)" % (C.q(Fraction(float(d.upper_threshold))), C.q(Fraction(float(d.upper_bound))), C.ql(us), C.ql(fv), C.ql(out))
+                call = "(step4_upper %s %s %s %s)" % (C.q(Fraction(float(d.upper_threshold))), C.q(Fraction(float(d.upper_bound))), C.ql(us), C.ql(fv))
+                masked = [x for x in fv if x >= Fraction(float(d.upper_threshold))]
+            tol = "(1#1000000000000)"
+            if len(set(masked)) == len(masked):
+                e = "close_list %s %s %s" % (call, C.ql(out), tol)
+            else:
+                # ties among the randomised values: NumPy's argsort breaks them arbitrarily (SIMD quicksort), so which of
+                # the tied entries receives which draw is not determined; compared as multisets, untouched entries exactly
+                keep = [i_ for i_, x in enumerate(fv) if x not in masked]
+                e = "(close_list (qsort %s) (qsort %s) %s && forallb (fun i => close (nth i %s 0) (nth i %s 0) %s) %s)" % (
+                    call, C.ql(out), tol, call, C.ql(out), tol, C.nl(keep))
+                res.count("k16-ties-compared-as-multisets")
             cc.add(e)
             m = dict(func="ISIMIP._step4_randomize_values (%s)" % which, variable=var, values=[str(x) for x in vals], draws=len(us))
             meta.append(m); res.case(("step4", which, var, len(us) > 1), sample=m if len(res.samples) < 5 else None)
